@@ -1,6 +1,7 @@
 package main
 
 import (
+	"os"
 	"fmt"
 	"go/ast"
 	"go/types"
@@ -186,15 +187,50 @@ func (e *Enc) loopHead(f *frame, li *loopInfo, st *State) {
 		}
 		k++
 		goal := e.safeEvalGoal(c, env)
-		e.oblige("inv-entry", fmt.Sprintf("loop%d/inv%d", li.ordinal, k), b.Instrs[0].Pos(), goal, c.Props, c.Text)
+		e.oblige("inv-entry", fmt.Sprintf("loop%d/%s", li.ordinal, clauseTag(c, "inv", k)), b.Instrs[0].Pos(), goal, c.Props, c.Text)
 	}
-	// 2. havoc everything the loop may change
+	// 2. havoc everything the loop may change. The allocation counter moves first:
+	// loop-carried references may point to objects allocated by earlier iterations.
+	loopEntryNext := st.next
+	{
+		nn := e.fresh("next", "Int")
+		e.assert(fmt.Sprintf("(>= %s %s)", nn, st.next))
+		st.next = nn
+	}
 	for _, phi := range phis {
 		nv := e.freshVal(shapeOf(phi.Type()), f.prefix+phi.Name())
 		e.assumeLoaded(st, nv)
 		f.vals[phi] = nv
 	}
 	mods, top := e.w.loopMods(f.fn, li)
+	// heaps that the body writes only at objects allocated after loop entry
+	if os.Getenv("GOVC_DEBUGLF") != "" {
+		lf := e.w.loopFrame(f.fn, li)
+		var ks []string
+		for k, v := range lf {
+			ks = append(ks, fmt.Sprintf("%s(%d)", k, len(v)))
+		}
+		sort.Strings(ks)
+		fmt.Fprintf(os.Stderr, "loopframe %s loop%d top=%v nil=%v: %v\n", f.fn.Name(), li.ordinal, top, lf == nil, ks)
+	}
+	if lf := e.w.loopFrame(f.fn, li); lf != nil && !top && os.Getenv("GOVC_NOLOOPFRAME") == "" {
+		rest := map[string]bool{}
+		for n := range mods {
+			phis, ok := lf[n]
+			if !ok {
+				rest[n] = true
+				continue
+			}
+			var except []string
+			for _, ph := range phis {
+				if ev, ok := entryVals[ph]; ok && len(ev.Sub) > 0 {
+					except = append(except, ev.Sub[0].T)
+				}
+			}
+			e.havocHeapFramed(st, n, loopEntryNext, except)
+		}
+		mods = rest
+	}
 	e.havocHeapsLoop(st, mods, top)
 	if e.trackOvf {
 		st.ghosts["ovf"] = boolVal(e.fresh("ovf", "Bool"))
@@ -205,9 +241,6 @@ func (e *Enc) loopHead(f *frame, li *loopInfo, st *State) {
 			st.ghosts[g] = Val{Sh: gd.Sh, T: e.fresh("g_"+sanitize(g), gd.Sort)}
 		}
 	}
-	nn := e.fresh("next", "Int")
-	e.assert(fmt.Sprintf("(>= %s %s)", nn, st.next))
-	st.next = nn
 	// range-index loops: the hidden index starts at -1 and is only incremented below the length
 	for _, phi := range phis {
 		if phi.Comment == "rangeindex" && isRangeIndexPhi(phi) {
@@ -277,6 +310,26 @@ func (e *Enc) havocHeapsLoop(st *State, mods map[string]bool, top bool) {
 	}
 	e.havocHeaps(st, plain, false, e.nextEntry, false)
 	e.havocHeaps(st, framed, false, e.nextEntry, true)
+}
+
+// havocHeapFramed: one heap gets a fresh version that agrees with the old one on
+// every object below bound other than the excepted ones.
+func (e *Enc) havocHeapFramed(st *State, n, bound string, except []string) {
+	if strings.HasPrefix(n, "ghost:") || strings.HasPrefix(n, "$") {
+		return
+	}
+	old, ok := st.heaps[n]
+	if !ok {
+		if len(except) == 0 {
+			st.markDirty(n, newDirty(true, bound))
+		} else {
+			st.markDirty(n, newDirty(false, ""))
+		}
+		return
+	}
+	nh := e.newHeapVersion(old, "l")
+	nh.Prev, nh.Bound, nh.Except, nh.IsFrm = old, bound, except, true
+	st.heaps[n] = nh
 }
 
 // havocHeaps replaces the named heaps (all heaps if top) by fresh versions.
@@ -425,11 +478,11 @@ func (e *Enc) checkBackEdge(f *frame, li *loopInfo, from *ssa.BasicBlock, st *St
 		case "invariant":
 			ki++
 			goal := e.safeEvalGoal(c, env)
-			e.oblige("inv-preserved", fmt.Sprintf("%s/inv%d", tag, ki), from.Instrs[len(from.Instrs)-1].Pos(), goal, c.Props, c.Text)
+			e.oblige("inv-preserved", fmt.Sprintf("%s/%s", tag, clauseTag(c, "inv", ki)), from.Instrs[len(from.Instrs)-1].Pos(), goal, c.Props, c.Text)
 		case "step":
 			ks++
 			goal := e.safeEvalGoal(c, envBody)
-			e.oblige("step", fmt.Sprintf("%s/step%d", tag, ks), from.Instrs[len(from.Instrs)-1].Pos(), goal, c.Props, c.Text)
+			e.oblige("step", fmt.Sprintf("%s/%s", tag, clauseTag(c, "step", ks)), from.Instrs[len(from.Instrs)-1].Pos(), goal, c.Props, c.Text)
 		case "decreases":
 			kd++
 			cur := e.evalSpec(c.Expr, envBody)
@@ -547,4 +600,12 @@ func isRangeIndexPhi(phi *ssa.Phi) bool {
 		// the increment is used by the loop condition "t < len": accepted as bounded
 	}
 	return true
+}
+
+// clauseTag: a loop clause is named by its @label when it has one, else by kind and ordinal.
+func clauseTag(c *Clause, kind string, k int) string {
+	if c.Label != "" {
+		return c.Label
+	}
+	return fmt.Sprintf("%s%d", kind, k)
 }
